@@ -433,7 +433,15 @@ def r5_what_empty_empties(ctx):
     ce = ctx.func("pyxel.data_structure.charge:Charge.empty")
     st_arr = [st for st, t in stores(ce.node, lambda t: dotted(t) == "self._array")]
     ok = len(st_arr) == 1 and not enclosing_tests(st_arr[0]) and isinstance(st_arr[0].value, ast.Call) and call_name(st_arr[0].value) in ("np.zeros_like", "np.zeros", "numpy.zeros_like")
-    ctx.check(ok, ce.qual + "#array", "charge array reset to zeros" if ok else "Charge.empty does not zero the charge array unconditionally", where=ce, node=st_arr[0] if st_arr else ce.node)
+    where_node = st_arr[0] if st_arr else ce.node
+    if not st_arr:
+        # in-place zeroing is an equally valid reset for THIS property (aliasing is C03's concern)
+        inplace = [c for c in calls_in(ce.node) if dotted(c.func) == "self._array.fill" and c.args and norm(c.args[0]) in ("0", "0.0")]
+        inplace_st = [st for st, t in stores(ce.node, lambda t: isinstance(t, ast.Subscript) and dotted(t.value) == "self._array") if isinstance(st, ast.Assign) and norm(st.value) in ("0", "0.0")]
+        cand = inplace + inplace_st
+        ok = len(cand) == 1 and not enclosing_tests(cand[0])
+        where_node = cand[0] if cand else ce.node
+    ctx.check(ok, ce.qual + "#array", "charge array reset to zeros" if ok else "Charge.empty does not zero the charge array unconditionally", where=ce, node=where_node)
     st_fr = [st for st, t in stores(ce.node, lambda t: dotted(t) == "self._frame")]
     ok = len(st_fr) == 1
     if ok:
